@@ -17,6 +17,7 @@ FAMILIES = [("pcbo", "PCBO", "PCBO", ["a", "b", "c"]), ("pcso", "PCSO", "PCSO", 
             ("qubo", "QUBO", "PUBO", ["a", "b", "c"]), ("quso", "QUSO", "PUSO", ["a", "b", "c"]),
             ("bmat", "PUBOMatrix", "QUBOMatrix", [0, 2, 3]), ("smat", "PUSOMatrix", "QUSOMatrix", [0, 2, 3])]
 TRACE_INVS = ["TermsMatch", "KindMatch", "ImplNoRaise", "ImplUnchangedOthers", "ImplInfoSame", "ImplCopySame", "ImplAncCovers", "ImplNoAlias",
+              "ImplMappingInjective", "ImplUpperBounds",      # a copy / clone / round-tripped model stays a consistent model under later edits
               "NotStuck", "Drift"]
 
 
@@ -38,15 +39,30 @@ def immutability_records(rng, n):
     def call(fn_name, argkind, f, *args):
         snaps = [snap(a) for a in args]
         raised = ""
+        res = None
         try:
             with warnings.catch_warnings():
                 warnings.simplefilter("ignore")
-                f(*args)
+                res = f(*args)
         except KeyError:
             raised = ""                    # documented KeyError of quadratic kinds is not an immutability matter
         except Exception as e:             # noqa
             raised = type(e).__name__
-        recs.append({"fn": fn_name, "argkind": argkind, "unchanged": all(same(a, s) for a, s in zip(args, snaps)), "raised": raised})
+        unchanged = all(same(a, s) for a, s in zip(args, snaps))
+        # the result is independent of the arguments: writing into it afterwards must not show in any of them
+        try:
+            from . import pure
+            if res is not None:
+                pure.scribble(res)
+                try:
+                    res *= 3
+                    res -= 1
+                except Exception:      # noqa
+                    pass
+        except Exception:              # noqa
+            pass
+        independent = all(same(a, s) for a, s in zip(args, snaps))
+        recs.append({"fn": fn_name, "argkind": argkind, "unchanged": unchanged, "raised": raised, "independent": independent or not unchanged})
 
     labs = ["a", "b", "c", 3]
     for i in range(n):
@@ -84,6 +100,8 @@ def immutability_records(rng, n):
                 call("sat.AND", kind, lambda mm: sat.AND(mm, labs[2]), m)
                 call("sat.OR", kind, lambda mm: sat.OR(labs[2], mm), m)
                 call("sat.XOR", kind, lambda mm: sat.XOR(mm, mm), m)
+                for g in ("BUFFER", "AND", "OR", "XOR", "NAND", "NOR", "XNOR"):
+                    call("sat.%s/1" % g, kind, lambda mm, gg=g: getattr(sat, gg)(mm), m)
                 if kind in ("dict", "QUBO", "QUBOMatrix"):
                     call("qubo_to_quso", kind, utils.qubo_to_quso, m)
                     call("solve_qubo_bruteforce", kind, utils.solve_qubo_bruteforce, m)
